@@ -102,7 +102,13 @@ class Check:
                 data = json.load(f)
         except FileNotFoundError:
             return []
-        return [e for e in data.get("findings", []) if e.get("property") == self.pid and e.get("status") == "known"]
+        found = [e for e in data.get("findings", []) if e.get("property") == self.pid and e.get("status") == "known"]
+        # development aid only (never set by a registered command): candidate entries a rule author is still working on
+        extra = os.environ.get("SA_EXTRA_KNOWN")
+        if extra and os.path.exists(extra):
+            with open(extra, encoding="utf-8") as f:
+                found += [e for e in json.load(f) if e.get("property") == self.pid and e.get("status") == "known"]
+        return found
 
     def finish(self, exit_process: bool = True) -> int:
         wall = time.time() - self.t0
